@@ -33,7 +33,7 @@ MANIFEST = {
             'from _succeed_workflow / _fail_workflow / _cancel_workflow / set_state / the completion-check transaction, for '
             'ALL interference schedules (an arbitrary committed transaction in every gap between two statements): '
             '*_atomic, fail/cancel_keeps_finished, succeed_keeps_finished (full since repo fix ce9b9520), *_state_output_together, '
-            'cac_succeed_keeps_finished (full since repo fix ce9b9520), cac_one_party_full_fails/_partial (known findings); tie: '
+            'cac_succeed_keeps_finished (full since repo fix ce9b9520), cac_one_party (full since repo patch 25); tie: '
             'race-wf stream (real stop / pause / completion check of a second session committed at every pre-lock SQL '
             'statement of the real completion / stop transaction, compared with Mistral.Race.runWith; monitor on the rows).',
     'note': 'One event = one committed transaction (in-process atomicity) in Mistral.Engine / Mistral.Tree; multi-process '
@@ -53,7 +53,7 @@ RULE = ('stream lifecycle (exhaustive); stream core (mode stop/mixed); stream en
         'start_subworkflows_via_rpc) x action results x 0..3 operator commands stop(CANCELLED|ERROR|SUCCESS) on the root '
         'or an inner / running execution at random points x schedule policy (random / fifo / lifo) of all pending '
         'deliveries; non-trivial = trace with a stop command; distinct = distinct case descriptions; stream race-wf: '
-        '6 scenarios x 5 interferers x every pre-lock significant SQL statement (exhaustive, 81 cases)')
+        '6 scenarios x 5 interferers x every pre-lock significant SQL statement (exhaustive, 86 cases)')
 TRUSTED = ['harness seams replaced by recorders',
            'translate/race_scripts.py (AST, fail closed); harness/race_driver.py: SQL statement tap, thread-local swap; '
            'row-lock waits modelled, not executed on sqlite',
@@ -64,7 +64,7 @@ LEAN_MODULES = ['Mistral.Props.C11', 'Mistral.Props.C11Tree', 'Mistral.Props.C03
 # resume commands with their propagation, lost post-commit operations); see docs/C11.md
 RACE_CHUNKS = [{'family': 'wf', 'scenarios': ['cacSucceed', 'stopCancel']},
                {'family': 'wf', 'scenarios': ['cacFail', 'stopSuccess']},
-               {'family': 'wf', 'scenarios': ['cacCancel', 'stopError']}]
+               {'family': 'wf', 'scenarios': ['cacCancel', 'stopError', 'resume']}]
 
 
 def correspond(ctx):
